@@ -32,7 +32,7 @@ theorem scanFrom_blanks (k : Nat) : ∀ (l c : Nat), scanFrom l c (List.replicat
   | zero => intro l c; simp [scanFrom]
   | succ k ih => intro l c; simp only [List.replicate_succ, scanFrom, ih]; refine Prod.ext rfl (by simp; omega)
 
-theorem scanFrom_shift' : ∀ (u : List Bool) (n l c : Nat),
+theorem scanFrom_shift_aux : ∀ (u : List Bool) (n l c : Nat),
     (scanFrom l c u n).1 = l + (scanFrom 0 0 u n).1 ∧
     (scanFrom l c u n).2 = if (scanFrom 0 0 u n).1 = 0 then c + (scanFrom 0 0 u n).2 else (scanFrom 0 0 u n).2 := by
   intro u
@@ -65,7 +65,7 @@ no line break has been passed -/
 theorem scanFrom_shift (u : List Bool) (n l c : Nat) :
     scanFrom l c u n = (l + (scanFrom 0 0 u n).1,
       if (scanFrom 0 0 u n).1 = 0 then c + (scanFrom 0 0 u n).2 else (scanFrom 0 0 u n).2) :=
-  Prod.ext (scanFrom_shift' u n l c).1 (scanFrom_shift' u n l c).2
+  Prod.ext (scanFrom_shift_aux u n l c).1 (scanFrom_shift_aux u n l c).2
 
 theorem scanFrom_suffix (pre post post' : List Bool) : ∀ (n l c : Nat), n ≤ pre.length →
     scanFrom l c (pre ++ post) n = scanFrom l c (pre ++ post') n := by
